@@ -223,7 +223,7 @@ impl Prop for PulseTrain {
         200
     }
     fn cases(&self, tier: Tier) -> u32 {
-        tier.pick(4_000, 100_000)
+        tier.pick(40_000, 600_000)
     }
     fn decode(&self, t: &mut Tape, _: Tier) -> Case {
         let rate = *t.pick(RATES);
@@ -290,7 +290,7 @@ impl Prop for NoiseStats {
         8
     }
     fn cases(&self, tier: Tier) -> u32 {
-        tier.pick(48, 400)
+        tier.pick(96, 600)
     }
     fn decode(&self, t: &mut Tape, _: Tier) -> NoiseCase {
         let rate = *t.pick(RATES);
@@ -340,7 +340,7 @@ impl Prop for MixedExcitation {
         240
     }
     fn cases(&self, tier: Tier) -> u32 {
-        tier.pick(3_000, 60_000)
+        tier.pick(30_000, 400_000)
     }
     fn decode(&self, t: &mut Tape, _: Tier) -> Case {
         let rate = *t.pick(RATES);
